@@ -34,3 +34,8 @@ add('C05', 'exploration', 'exact-cursor monitor on sequential histories; recorde
     'Thousands of generated stub configurations are driven by random call interleavings against an exact per-stub cursor; under concurrency (race build and plain build, spin-barrier release, 2-32/64 goroutines) every operation is recorded at the client boundary from one atomic clock and the history is checked by porcupine and by a direct order check; race reports are counted from the detector log. Schedules are sampled; the evidence counts overlapping operations and lost-update histories actually seen.',
     'Concurrency clause asserted exactly as stated (element of sequence, never backwards, sticky last), not k-th-call-gets-k-th-element; porcupine timeouts are inconclusive.',
     'DESIGN.md 2 C05')
+
+add('C04', 'exploration', 'reference-interpreter monitor over generated stub configurations and real calls',
+    'Thousands of generated well-formed configurations (default + overlapping When/In clauses with plain values, Any, In) on fixed, variadic (0-3 leading fixed) and method targets are exercised by real calls through the patched code; each outcome (value or "no suitable condition" panic) is compared with a 40-line interpreter of the documented rule. Sampled over configurations and argument tuples; evidence counts the first-match-wins cases with 2+ matching clauses.',
+    'Equality in the interpreter is reflect.DeepEqual on same-typed values (pointers by pointee); When.Eval is cross-checked only for plain functions; a first When on a variadic target is generated with at least one variadic element (fewer is C13 territory).',
+    'DESIGN.md 2 C04')
